@@ -68,10 +68,23 @@ class MeshLine1(MeshSimplex, Mesh):
                           newt,
                           np.vstack((mid, t[1, marked]))))
 
+        subdomains = None
+        if self._subdomains is not None:
+            nn, nm = len(nonmarked), len(marked)
+            new_t = np.zeros((2, t.shape[1]), dtype=np.int32) - 1
+            new_t[0, nonmarked] = np.arange(nn, dtype=np.int32)
+            new_t[0, marked] = nn + np.arange(nm, dtype=np.int32)
+            new_t[1, marked] = nn + nm + np.arange(nm, dtype=np.int32)
+            subdomains = {
+                name: np.setdiff1d(np.unique(new_t[:, ixs]), [-1])
+                for name, ixs in self._subdomains.items()
+            }
+
         return replace(
             self,
             doflocs=newp,
             t=newt,
+            _subdomains=subdomains,
         )
 
     def param(self):
